@@ -36,6 +36,8 @@ def run(tier, rep):
                        "summary": "Trace_Transform rejects event %d of trace %s (%s): %s" % (
                            rj["failing_index"], rj["trace"], rj["tlc"], rj["failing_event"]),
                        "trace": rj["events"][: rj["failing_index"] + 3]})
+    # the Release / Read discipline between ingester and FormatReader, on recorded call sequences of all seven readers
+    vlib.ingester_protocol(rep, "C01", thorough)
     rep.cov["rule"] = ("B1: every ingester script (<=MaxLen results over ok/cont/fatal/eof x 2 values, junk bytes) x every call word "
                        "over {Read,RawRecord} of length MaxCalls, expectations from Transform.tla; B2: read loops over repo samples + "
                        "harness schemas with intact/truncated/flipped/spliced/doubled/empty inputs and random call words that keep "
